@@ -1054,6 +1054,11 @@ impl EntryScanner<'_> {
         &mut self,
         write: &mut usize,
     ) -> Result<(), EntryError> {
+        // There has to be a token to convert. Without this check, an entry
+        // that ends before the character string would have us read into the
+        // next line or write past the end of the buffer.
+        self.zonefile.buf.require_token()?;
+
         let start = *write;
         *write += 1;
         let latest = *write + 255; // If write goes here, charstr is too long
